@@ -1,1 +1,408 @@
-fn main() { eprintln!("not built yet"); std::process::exit(2); }
+//! C11 — extraction with the command-line tool never writes outside the chosen output directory.
+//!
+//! Bounded exhaustive exploration: every entry name of a small grammar (components `..`, `.`,
+//! empty, plain, drive-like, reserved, long, unicode, blank; both separators; rooted / drive
+//! prefixes) x preserve-paths on/off x patch chain on/off x whole-archive / explicit names.
+//! Each case writes its own archive(s) with the independent `refimpl::mpqref` writer (the real
+//! builder normalises names), runs the REAL `warcraft-rs mpq extract` binary inside a fresh jail
+//! and judges containment with two observers: (i) a recursive before/after snapshot of the jail,
+//! (ii) the strace log of every mutating path-taking system call.
+mod jail;
+mod names;
+mod trace;
+
+use jail::{Node, Runner};
+use names::NameSpec;
+use refimpl::mpqref::{self, WFile, WOptions};
+use serde_json::{json, Value};
+use vcore::*;
+
+const BENIGN_BASE: &str = "keep\\ok.bin";
+const BENIGN_PATCH: &str = "keep\\two.bin";
+
+struct Extract {
+    space: &'static str,
+    names: Vec<NameSpec>,
+    out_relative: bool,
+    /// strace every case (true) or only the representative subset: names of <= 2 components and
+    /// 3-component names over the core alphabet (false)
+    trace_all: bool,
+    runner: Runner,
+    scratch: Scratch,
+}
+
+#[derive(Clone, Copy)]
+struct ModeBits {
+    explicit: bool,
+    chain: bool,
+    preserve: bool,
+}
+
+impl Extract {
+    fn new(space: &'static str, names: Vec<NameSpec>, out_relative: bool, trace_all: bool) -> Extract {
+        let want_strace = std::env::var("C11_STRACE").map(|v| v != "none").unwrap_or(true);
+        let runner = match Runner::detect(want_strace) {
+            Ok(r) => r,
+            Err(e) => {
+                eprintln!("MACHINERY-ERROR: {e}");
+                std::process::exit(2);
+            }
+        };
+        let scratch = Scratch::new(&format!("c11-{space}"));
+        let logs = scratch.path("logs");
+        std::fs::create_dir_all(&logs).expect("logs dir");
+        if let Some(u) = runner.drop_to {
+            let _ = std::os::unix::fs::chown(&logs, Some(u), Some(u));
+        }
+        let trace_all = match std::env::var("C11_STRACE").as_deref() {
+            Ok("all") => true,
+            Ok("subset") => false,
+            _ => trace_all,
+        };
+        Extract { space, names, out_relative, trace_all, runner, scratch }
+    }
+    fn decode(&self, i: u64) -> (ModeBits, &NameSpec) {
+        let d = gen::mixed_radix(i, &[2, 2, 2, self.names.len() as u64]);
+        (ModeBits { explicit: d[0] == 1, chain: d[1] == 1, preserve: d[2] == 1 }, &self.names[d[3] as usize])
+    }
+}
+
+fn mode_class(m: ModeBits) -> String {
+    format!(
+        "{} ({})",
+        if m.preserve { "--preserve-paths" } else { "without --preserve-paths" },
+        if m.chain { "patch chain" } else { "single archive" }
+    )
+}
+
+fn under(path: &str, dir: &str) -> bool {
+    path == dir || (path.starts_with(dir) && path.as_bytes().get(dir.len()) == Some(&b'/'))
+}
+
+impl Space for Extract {
+    fn len(&self) -> u64 {
+        8 * self.names.len() as u64
+    }
+    fn describe(&self, i: u64) -> Value {
+        let (m, spec) = self.decode(i);
+        json!({
+            "space": self.space,
+            "name": spec.pattern(),
+            "name_class": spec.class(),
+            "prefix": names::PREFIXES[spec.prefix],
+            "components": spec.comps.len(),
+            "preserve": m.preserve,
+            "chain": m.chain,
+            "select": if m.explicit { "explicit-names" } else { "whole-archive" },
+            "output": if self.out_relative { "relative" } else { "absolute" },
+        })
+    }
+    fn case_timeout(&self) -> u64 {
+        120
+    }
+    fn run(&self, i: u64) -> CaseResult {
+        let (m, spec) = self.decode(i);
+        let mut r = CaseResult::new();
+        r.key = format!("{}|{}|{}|{}|{}", self.space, spec.pattern(), m.preserve, m.chain, m.explicit);
+
+        // ---- jail and inputs
+        let root = self.scratch.path(&format!("j{i}"));
+        let j = jail::build(&root);
+        let name = spec.concrete(&j.anchor);
+        let tok_adv0 = format!("C11-ADV-BASE-{i:010}-{:016x}\n", hash_str(&name));
+        let tok_adv1 = format!("C11-ADV-PATCH-{i:010}-{:016x}\n", hash_str(&name));
+        let tok_ben0 = format!("C11-BENIGN-BASE-{i:010}\n");
+        let tok_ben1 = format!("C11-BENIGN-PATCH-{i:010}\n");
+        let mk = |n: &str, t: &str| WFile { name: n.as_bytes().to_vec(), data: t.as_bytes().to_vec(), method: 0, encrypt: false, fix_key: false, single_unit: false, raw_flags: 0, in_listfile: true };
+        let base = mpqref::write(&[mk(&name, &tok_adv0), mk(BENIGN_BASE, &tok_ben0)], &WOptions::default()).expect("mpqref base");
+        let base_path = root.join("in/base.mpq");
+        std::fs::write(&base_path, &base).expect("write base");
+        let patch_path = root.join("in/patch.mpq");
+        if m.chain {
+            let patch = mpqref::write(&[mk(&name, &tok_adv1), mk(BENIGN_PATCH, &tok_ben1)], &WOptions::default()).expect("mpqref patch");
+            std::fs::write(&patch_path, &patch).expect("write patch");
+        }
+        let out_abs = j.out_abs().to_string_lossy().into_owned();
+        let out_arg = if self.out_relative { "../out".to_string() } else { out_abs.clone() };
+        let mut args: Vec<String> = vec!["mpq".into(), "extract".into(), "--output".into(), out_arg, "--skip-errors".into()];
+        if m.preserve {
+            args.push("--preserve-paths".into());
+        }
+        if m.chain {
+            args.push("--patch".into());
+            args.push(patch_path.to_string_lossy().into_owned());
+        }
+        args.push("--".into());
+        args.push(base_path.to_string_lossy().into_owned());
+        if m.explicit {
+            args.push(name.clone());
+            args.push(BENIGN_BASE.to_string());
+        }
+
+        // ---- run between two snapshots
+        let (before, _) = jail::snapshot(&root);
+        let core_only = spec.comps.iter().all(|&c| names::CORE.contains(&names::FULL[c]));
+        let traced = self.runner.strace && (self.trace_all || spec.comps.len() <= 2 || (spec.comps.len() == 3 && core_only));
+        let log_path = self.scratch.path(&format!("logs/t{i}.log"));
+        let ro = self.runner.run(&j, &args, if traced { Some(log_path.as_path()) } else { None });
+        let (after, contents) = jail::snapshot(&root);
+        r.count("cli_runs", 1);
+        if let Some(e) = &ro.spawn_error {
+            r.viol("machinery: the command-line tool could not be started", e.clone());
+            let _ = std::fs::remove_dir_all(&root);
+            return r;
+        }
+
+        // ---- observer (i): snapshot difference outside out/ and the tool-state directory
+        let allowed_rel = |p: &str| under(p, &j.out_rel) || under(p, &j.home_rel);
+        let mut created: Vec<String> = vec![];
+        let mut damaged: Vec<String> = vec![];
+        for (p, n) in &after {
+            if allowed_rel(p) {
+                continue;
+            }
+            match before.get(p) {
+                None => created.push(p.clone()),
+                Some(b) if b != n => damaged.push(format!("{p} (modified)")),
+                _ => {}
+            }
+        }
+        for p in before.keys() {
+            if !allowed_rel(p) && !after.contains_key(p) {
+                damaged.push(format!("{p} (removed)"));
+            }
+        }
+        // where did the content tokens land?
+        let mut adv_in = 0;
+        let mut adv_out: Vec<String> = vec![];
+        let mut ben_in = 0;
+        let mut ben_out = 0;
+        for (p, data) in &contents {
+            if under(p, "in") {
+                continue;
+            }
+            let is_adv = data == tok_adv0.as_bytes() || data == tok_adv1.as_bytes();
+            let is_ben = data == tok_ben0.as_bytes() || data == tok_ben1.as_bytes();
+            if is_adv {
+                if under(p, &j.out_rel) { adv_in += 1 } else { adv_out.push(p.clone()) }
+            }
+            if is_ben {
+                if under(p, &j.out_rel) { ben_in += 1 } else { ben_out += 1 }
+            }
+        }
+        let files_in_out = after.iter().filter(|(p, n)| under(p, &j.out_rel) && matches!(n, Node::File { .. })).count();
+
+        // ---- observer (ii): syscall trace
+        let mut trace_outside: Vec<String> = vec![];
+        let mut trace_seen = false;
+        if traced {
+            match &ro.trace_log {
+                Some(log) => {
+                    let p = trace::parse(log, &j.cwd_abs().to_string_lossy());
+                    if !p.saw_exec {
+                        r.viol("machinery: strace log unusable (no execve recorded)", format!("{} lines", p.lines));
+                    } else {
+                        trace_seen = true;
+                        r.count("traced_runs", 1);
+                        r.count("traced_mutating_calls", p.mutations.len() as u64);
+                        let home_abs = j.home_abs().to_string_lossy().into_owned();
+                        for mu in &p.mutations {
+                            let ok_place = under(&mu.path, &out_abs) || under(&mu.path, &home_abs) || (mu.path.starts_with("/dev/") && !mu.path.starts_with("/dev/shm/")) || mu.path.starts_with("/proc/");
+                            if ok_place {
+                                continue;
+                            }
+                            if mu.ok {
+                                trace_outside.push(format!("{}({})", mu.call, mu.path));
+                            } else if matches!(mu.errno.as_str(), "EACCES" | "EPERM" | "EROFS") {
+                                r.count("denied_mutations_outside_output", 1);
+                            }
+                        }
+                        if !p.unparsed.is_empty() {
+                            r.viol("machinery: strace line with a mutating call could not be parsed", p.unparsed[0].clone());
+                        }
+                    }
+                }
+                None => r.viol("machinery: strace log missing", format!("{}", log_path.display())),
+            }
+        }
+
+        if std::env::var("C11_DEBUG").is_ok() {
+            eprintln!("name={:?}\nargs={:?}\nexit={:?} signal={:?}\nstderr={}\ncreated={:?}\ndamaged={:?}\nadv_in={} adv_out={:?} ben_in={} files_in_out={}\ntrace_outside={:?}", name, args, ro.code, ro.signal, ro.stderr, created, damaged, adv_in, adv_out, ben_in, files_in_out, trace_outside);
+            for (p, n) in &after {
+                if !before.contains_key(p) {
+                    eprintln!("  new: {p} {:?}", n);
+                }
+            }
+            if let Some(l) = &ro.trace_log {
+                eprintln!("--- strace log\n{l}");
+            }
+        }
+        // ---- verdict
+        let mc = mode_class(m);
+        let ctx = |extra: &str| {
+            format!(
+                "{extra}; entry name {:?}; args {:?}; cwd {}; exit {:?} signal {:?}; stderr: {}",
+                name,
+                &args[2..],
+                j.cwd_abs().display(),
+                ro.code,
+                ro.signal,
+                ro.stderr.replace('\n', " | ").chars().take(300).collect::<String>()
+            )
+        };
+        if !created.is_empty() {
+            let shown: Vec<&String> = created.iter().take(6).collect();
+            let confirm = if trace_seen { format!("; syscall trace: {} successful mutating call(s) outside, e.g. {:?}", trace_outside.len(), trace_outside.last()) } else { String::new() };
+            r.viol(
+                format!("extract {mc}: {} written outside the output directory", spec.class()),
+                ctx(&format!("created outside {} (jail-relative): {:?}; adversarial content found at {:?}{}", j.out_rel, shown, adv_out, confirm)),
+            );
+            if trace_seen && trace_outside.is_empty() {
+                r.viol("observer disagreement: snapshot shows an escape that the syscall trace lacks", ctx(&format!("created {:?}", shown)));
+            }
+        } else if !trace_outside.is_empty() {
+            r.viol(
+                format!("extract {mc}: {}: mutating system call outside the output directory (seen only in the syscall trace)", spec.class()),
+                ctx(&format!("calls: {:?}", trace_outside.iter().take(6).collect::<Vec<_>>())),
+            );
+        }
+        if !damaged.is_empty() {
+            r.viol(format!("extract {mc}: bystander file outside the output directory modified or removed"), ctx(&format!("{:?}", damaged)));
+        }
+
+        // ---- bookkeeping
+        let wrote_adv = adv_in > 0 || !adv_out.is_empty();
+        r.nontrivial = wrote_adv;
+        if files_in_out == 0 && created.is_empty() {
+            r.err_return = true; // the tool refused / extracted nothing: acceptable
+        }
+        let exit = match (ro.code, ro.signal) {
+            (Some(0), _) => "exit0",
+            (Some(_), _) => "exit-nonzero",
+            (None, _) => "signal",
+        };
+        r.outcome = format!(
+            "{exit} adv={} benign={}",
+            if !adv_out.is_empty() { "outside" } else if adv_in > 0 { "inside" } else { "nowhere" },
+            if ben_out > 0 { "outside" } else if ben_in > 0 { "inside" } else { "nowhere" }
+        );
+        r.count(&format!("outcome[{}]", r.outcome), 1);
+        let state_new = after.keys().filter(|p| under(p, &j.home_rel) && !before.contains_key(*p)).count();
+        if state_new > 0 {
+            r.count("tool_state_entries_created_under_home", state_new as u64);
+        }
+        if !created.is_empty() {
+            r.count(&format!("escapes[{mc}]"), 1);
+        }
+        if adv_in > 0 {
+            r.count("adversarial_entry_written_inside_output", 1);
+        }
+        if !adv_out.is_empty() {
+            r.count("adversarial_entry_written_outside_output", 1);
+        }
+        if ro.code != Some(0) {
+            r.count("nonzero_exit", 1);
+        }
+        if std::env::var("C11_KEEP").is_err() {
+            let _ = std::fs::remove_dir_all(&root);
+        }
+        r
+    }
+}
+
+fn sizes(tier: Tier) -> ((usize, usize), (usize, usize)) {
+    // (full_n, core_n) for the main grammar space and for the relative-output space
+    match tier {
+        Tier::Quick => ((2, 3), (1, 2)),
+        Tier::Thorough => ((3, 4), (2, 3)),
+    }
+}
+
+fn build(name: &str, _arg: &str, tier: Tier) -> Box<dyn Space> {
+    let (g, rel) = sizes(tier);
+    match name {
+        "grammar" => Box::new(Extract::new("grammar", names::enumerate(g.0, g.1), false, false)),
+        "relout" => Box::new(Extract::new("relout", names::enumerate(rel.0, rel.1), true, true)),
+        _ => panic!("space {name}"),
+    }
+}
+
+fn main() {
+    let argv: Vec<String> = std::env::args().collect();
+    if argv.get(1).map(|s| s.as_str()) == Some("--repro") {
+        // stand-alone reproduction of the known escapes: prints the command line, the exit status
+        // and every path the tool created, for four minimal cases
+        std::env::set_var("C11_DEBUG", "1");
+        std::env::set_var("C11_STRACE", "none");
+        let sp = Extract::new("grammar", names::enumerate(2, 3), false, false);
+        for pat in ["..\\B.txt", "\\<ANCHOR>\\B.txt"] {
+            let k = sp.names.iter().position(|n| n.pattern() == pat).expect("name in grammar") as u64;
+            for mode in [4u64, 6] {
+                let i = k * 8 + mode;
+                eprintln!("=== case {} {}", i, sp.describe(i));
+                let r = sp.run(i);
+                for v in &r.viols {
+                    eprintln!("VIOLATION: {}", v.symptom);
+                }
+            }
+        }
+        return;
+    }
+    if argv.get(1).map(|s| s.as_str()) == Some("--list-names") {
+        let t = if argv.get(2).map(|s| s.as_str()) == Some("thorough") { Tier::Thorough } else { Tier::Quick };
+        let (g, _) = sizes(t);
+        for (k, n) in names::enumerate(g.0, g.1).iter().enumerate() {
+            println!("{k}\t{}\t{}", n.class(), n.pattern());
+        }
+        return;
+    }
+    let Mode::Supervisor(mut c) = start("C11", "exploration", build) else { return };
+    let runner = match Runner::detect(true) {
+        Ok(r) => r,
+        Err(e) => {
+            eprintln!("MACHINERY-ERROR: {e}");
+            std::process::exit(2);
+        }
+    };
+    let (g, rel) = sizes(c.tier);
+    c.assumptions.clear();
+    c.assume(format!("subject: the real CLI binary {} (dev profile, built from /repo's working tree by ./check); archives are written by the independent refimpl::mpqref writer, which does not normalise names", runner.cli));
+    c.assume("the tool runs with cwd and --output 8 directories deep inside a fresh per-case jail under a vcore::Scratch directory; HOME, XDG_* and TMPDIR point at <jail>/home, which counts as tool state and is not judged; TOKIO_WORKER_THREADS=2, RAYON_NUM_THREADS=2, RUST_BACKTRACE=0 only bound start-up cost");
+    c.assume("rooted (leading-separator) names are always rooted at <jail>/abs/d1/d2/d3/d4 and a name holds at most 4 `..`, fewer than the depth of out/, cwd and the anchor: an escaping write lands inside the jail where the snapshot sees it");
+    c.assume(match runner.drop_to {
+        Some(u) => format!("when started as root the tool (and strace) run as uid/gid {u} with the jail chown'ed to that user, so a write that would leave the scratch directory is denied by the OS instead of damaging the machine; denied attempts are counted, not judged"),
+        None => "started unprivileged: the tool runs under the invoking user".to_string(),
+    });
+    c.assume("only containment is judged: any exit status, refusal or partial extraction is acceptable; creation of the output directory itself is allowed; directories created outside out/ count as writes outside");
+    if !runner.strace {
+        eprintln!("warning: strace is not usable here; only the snapshot observer decides");
+        c.assume("strace unavailable on this machine: observer (ii) did not run");
+    } else {
+        c.assume("observer (ii) on every case of `relout` and, in `grammar`, on every name of <= 2 components or of 3 components over the core alphabet (all quick cases): strace -f -y restricted to mutating path-taking calls; only calls that succeeded are judged (paths normalised lexically, the jail holds no symlinks); allowed targets: out/, <jail>/home, /dev (devices, not /dev/shm), /proc");
+    }
+    c.rule = format!(
+        "case = (entry name, preserve-paths, patch chain, selection); names = prefix x body, body = components joined by independently chosen separators; space `grammar` (absolute --output): every body of <= {} components over the full 10-class alphabet plus every body of {} components over the core alphabet {{.., a, empty, B.txt}}, x 6 prefixes (empty first component only behind a rooted prefix); space `relout` (relative --output ../out): bodies <= {} full / {} core; one adversarial + one benign entry per archive (patch chain: base and patch both carry the adversarial name, distinct tokens). Non-trivial = the tool materialised the adversarial entry somewhere (its unique content token was found on disk); distinct by (space, name, modes). err_return = nothing was extracted at all (refusal).",
+        g.0, g.1, rel.0, rel.1
+    );
+    c.run_space("grammar", "");
+    c.run_space("relout", "");
+    let ng = names::enumerate(g.0, g.1);
+    let nr = names::enumerate(rel.0, rel.1);
+    c.extra_cov.insert(
+        "axes".into(),
+        json!({
+            "component_classes_full": names::FULL.len(), "component_classes_core": names::CORE.len(), "separators": 2, "prefixes": names::PREFIXES.len(),
+            "names_grammar": ng.len(), "names_relout": nr.len(),
+            "names_by_class_grammar": {
+                "rooted": ng.iter().filter(|n| n.class().starts_with("rooted")).count(),
+                "dotdot": ng.iter().filter(|n| n.class().contains("(..)")).count(),
+                "drive": ng.iter().filter(|n| n.class().starts_with("drive")).count(),
+                "plain": ng.iter().filter(|n| n.class().contains("without root")).count(),
+            },
+            "max_components": g.1, "preserve_paths": 2, "patch_chain": 2, "selection": 2, "output_form": 2,
+        }),
+    );
+    c.extra_cov.insert("completed_deviation_bound".into(), json!(format!("<= {} components (full alphabet), {} components (core alphabet)", g.0, g.1)));
+    c.extra_cov.insert("observers".into(), json!({"snapshot": true, "strace": runner.strace, "privilege_drop": runner.drop_to.is_some()}));
+    c.finish();
+}
